@@ -89,7 +89,8 @@ Inductive event :=
   | EvBroker (b : aid) (w : bwhat) (a : aid) (h : hid)
   | EvTopicOp (o : oid) (c : nat) (k : topk) (topic x : nat)
   | EvTopicRet (o : oid) (ok : bool)
-  | EvBcastEnd (a : aid) (ty : nat).
+  | EvBcastEnd (a : aid) (ty : nat)
+  | EvIdentity (a : aid) (same : bool).
 
 (** * Decoding a line of numbers *)
 Definition dec_bool (n : nat) : bool := negb (Nat.eqb n 0).
@@ -399,6 +400,11 @@ Definition decode (l : list nat) : option event :=
     | 47 =>
       match args with
       | [a; ty] => Some (EvBcastEnd a ty)
+      | _ => None
+      end
+    | 48 =>
+      match args with
+      | [a; same] => Some (EvIdentity a (dec_bool same))
       | _ => None
       end
     | _ => None
